@@ -174,9 +174,9 @@ pub fn h2_request(variant: u64) -> Vec<u8> {
     b
 }
 
-pub struct ConnSpec { pub kind: u64, pub v6: bool, pub id: u64, pub cid: Option<u64>, pub cport: Option<u16>, pub sid: Option<u64>, pub same_host: bool }
+pub struct ConnSpec { pub kind: u64, pub v6: bool, pub id: u64, pub cid: Option<u64>, pub cport: Option<u16>, pub sid: Option<u64>, pub same_host: bool, pub client_ip_opts: bool, pub force_segs: Option<usize> }
 impl ConnSpec {
-    pub fn new(kind: u64, v6: bool, id: u64) -> ConnSpec { ConnSpec { kind, v6, id, cid: None, cport: None, sid: None, same_host: false } }
+    pub fn new(kind: u64, v6: bool, id: u64) -> ConnSpec { ConnSpec { kind, v6, id, cid: None, cport: None, sid: None, same_host: false, client_ip_opts: false, force_segs: None } }
 }
 
 /// frames of one connection, client address derived from `id` so identities are pairwise distinct
@@ -195,9 +195,15 @@ pub fn connection(r: &mut Rng, spec: &ConnSpec, t0: u64) -> Vec<Frame> {
     let hz_c = *r.pick(&[100u64, 250, 1000]); let hz_s = *r.pick(&[100u64, 1000]);
     let ts_c0 = 100_000 + r.below(1_000_000); let ts_s0 = 5_000_000 + r.below(1_000_000);
     let v6 = spec.v6;
+    let client_ip_opts = spec.client_ip_opts;
     let mk = |from_client: bool, t: Tcp, ttl: u8| -> Vec<u8> {
         if v6 { let mut ip = if from_client { Ip6::new(c6, s6) } else { Ip6::new(s6, c6) }; ip.hop = ttl; ether6(&ip, &t) }
-        else { let mut ip = if from_client { Ip4::new(c4, s4) } else { Ip4::new(s4, c4) }; ip.ttl = ttl; ether4(&ip, &t) }
+        else {
+            let mut ip = if from_client { Ip4::new(c4, s4) } else { Ip4::new(s4, c4) }; ip.ttl = ttl;
+            // IPv4 options (record route) in the client direction only: IHL 7 one way, 5 the other
+            if from_client && client_ip_opts { ip.options = vec![7, 7, 4, 0, 0, 0, 0]; }
+            ether4(&ip, &t)
+        }
     };
     let mut now = t0;
     let tsc = |now: u64| (ts_c0 + (now - t0) * hz_c / 1000) as u32;
@@ -222,7 +228,7 @@ pub fn connection(r: &mut Rng, spec: &ConnSpec, t0: u64) -> Vec<Frame> {
         _ => r.bytes(40),
     };
     // split the client bytes into 1..4 in-order segments
-    let nseg = 1 + r.below(4) as usize;
+    let nseg = spec.force_segs.unwrap_or(1 + r.below(4) as usize);
     let mut cuts: Vec<usize> = (0..nseg - 1).map(|_| 1 + r.below(client_bytes.len() as u64 - 1) as usize).collect();
     cuts.push(0); cuts.push(client_bytes.len()); cuts.sort(); cuts.dedup();
     // a ClientHello's first segment holds at least the 5-byte record header
